@@ -474,10 +474,12 @@ def delimited_case(ctx, kind, spec, cfg, layout=None, extra=None):
             'observed': obs_json, 'classes': classes}
     if extra:
         desc.update(extra)
-    in_dom = f'Bool.eqb (dom {c} {f}) {lit.b(not classes)}'
+    # the literals are shared inside the term (let) to keep the case files small
+    in_dom = f'Bool.eqb (dom c f) {lit.b(not classes)}'
+    body = f'{in_dom} && obs_eqb (M_roundtrip c f) {obs}' if m_ok else in_dom
     return Case(kind, desc,
-                m=f'{in_dom} && obs_eqb (M_roundtrip {c} {f}) {obs}' if m_ok else in_dom,
-                s=f'obs_eqb (S_roundtrip {c} {f}) {obs}',
+                m=f'(let c := {c} in let f := {f} in {body})',
+                s=f'obs_eqb (S_roundtrip {_cfg(dict(cfg, apex=[]))} {f}) {obs}',
                 tags=tags, nontrivial=True)
 
 
@@ -618,7 +620,7 @@ def _renderable(v):
 
 def random_cases(ctx):
     rng = ctx.rng
-    n = ctx.n(700, 12000)
+    n = ctx.n(500, 9000)
     clean = [c for c in ALPHABET if c != '\t']
     for _ in range(n):
         # most frames avoid TAB (which puts nearly every frame into a finding class where the model makes no claim)
@@ -747,9 +749,14 @@ def structural_cases(ctx):
     import static_frame as sf
     rng = ctx.rng
     IH = sf.IndexHierarchy.from_labels
-    for _ in range(ctx.n(120, 1500)):
+    fixed = [
+        # the minimal replays of the structural findings (each listed finding must reproduce in every run)
+        {'index': [['x']], 'columns': [['a'], ['b']], 'cols': [('i', [2 ** 63 - 1]), ('f', [1.5])], 'di': 1, 'dc': 1},
+        {'index': [['x']], 'columns': [['a', 1], ['a', 2]], 'cols': [('i', [1]), ('i', [2])], 'di': 1, 'dc': 2},
+    ]
+    for it in range(ctx.n(70, 1200)):
         alphabet = ALPHABET if rng.random() < 0.5 else ['a', '1', ' ', '-', 'b', '.']
-        spec = _struct_spec(rng, alphabet)
+        spec = fixed[it] if it < len(fixed) else _struct_spec(rng, alphabet)
         arrays = [_array(k, vs) for k, vs in spec['cols']]
         layout = rng.choice(list(zoo.layouts_for([a.dtype for a in arrays])))
         frame = build(dict(spec, index_name=None), layout)
@@ -761,7 +768,8 @@ def structural_cases(ctx):
         cc = IH if dc > 1 else None
         base = {'frame': _jsonable(src), 'layout': zoo.layout_str(layout), 'index_depth': di, 'columns_depth': dc}
         tags = {'op': 'structural'}
-        dom = f'struct_dom {f}'
+        dom = 'struct_dom f'
+        share = lambda pl, body: f'(let f := {f} in let pl := {pl} in {body})'
         kinds = [k for k, _ in spec['cols']]
         mix = all(k in 'if' for k in kinds) and 'i' in kinds and 'f' in kinds
         big = [v for k, vs in spec['cols'] if k == 'i' for v in vs if abs(v) > 2 ** 53]
@@ -778,7 +786,7 @@ def structural_cases(ctx):
         pl = _pairs_lit(p0, dc, di)
         ctx.count('struct:pairs0')
         yield Case('api:pairs-axis0', dict(base, call='Frame.from_items(((k, [v for _, v in col]) for k, col in f.to_pairs(0)), index=[i for i, _ in p[0][1]])', observed=oj),
-                   m=f'{dom} && pairs_eqb (M_to_pairs0 {f}) {pl} && obs_eqb (Ok (M_from_pairs0 {pl})) {obs}',
+                   m=share(pl, f'{dom} && pairs_eqb (M_to_pairs0 f) pl && obs_eqb (Ok (M_from_pairs0 pl)) {obs}'),
                    s=f'obs_sim (Ok {f}) {obs}', tags=tags)
         # to_pairs(1) -> from_records_items
         p1 = frame.to_pairs(1)
@@ -787,7 +795,7 @@ def structural_cases(ctx):
         pl = _pairs_lit(p1, di, dc)
         ctx.count('struct:pairs1')
         yield Case('api:pairs-axis1', dict(base, call='Frame.from_records_items(((i, [v for _, v in row]) for i, row in f.to_pairs(1)), columns=[c for c, _ in p[0][1]])', observed=oj),
-                   m=f'{dom} && pairs_eqb (M_to_pairs1 {f}) {pl} && obs_eqb (Ok (M_from_pairs1 {pl})) {obs}' if row_model else None,
+                   m=share(pl, f'{dom} && pairs_eqb (M_to_pairs1 f) pl && obs_eqb (Ok (M_from_pairs1 pl)) {obs}') if row_model else None,
                    s=f'obs_sim (Ok {f}) {obs}', tags=row_tags)
         # rows -> from_records
         rows = list(frame.iter_tuple(axis=1, constructor=tuple))
@@ -795,7 +803,7 @@ def structural_cases(ctx):
         rl = _rows_lit(rows)
         ctx.count('struct:records')
         yield Case('api:records', dict(base, call='Frame.from_records(list(f.iter_tuple(axis=1, constructor=tuple)), index=f.index, columns=f.columns)', observed=oj),
-                   m=(f'{dom} && rows_eqb (M_rows {f}) {rl} && obs_eqb (Ok (M_from_records {_labels_lit(src["index"])} {_labels_lit(src["columns"])} {rl})) {obs}'
+                   m=(share(rl, f'{dom} && rows_eqb (M_rows f) pl && obs_eqb (Ok (M_from_records (tf_index f) (tf_columns f) pl)) {obs}')
                       if row_model else None),
                    s=f'obs_sim (Ok {f}) {obs}', tags=row_tags)
         # dict records -> from_dict_records
@@ -947,7 +955,11 @@ def oracle_cases(ctx):
             f'float_renderable {lit.z(n)} {lit.z(dd)} && text_eqb (render_val filter_default (VFlt {lit.z(n)} {lit.z(dd)})) {_tx(f"{np.float64(v)}")}')
     for i, c in enumerate(out):
         c.cid = i
-    fail_m, _ = core.eval_cases(ID + '_oracle', IMPORTS, out)
+    try:
+        fail_m, _ = core.eval_cases(ID + '_oracle', IMPORTS, out)
+    except core.MachineryError:
+        # a coqc killed by the kernel's OOM killer on a loaded machine: try once more before giving up
+        fail_m, _ = core.eval_cases(ID + '_oracle', IMPORTS, out)
     if fail_m:
         bad = [c for c in out if c.cid in fail_m][:5]
         raise core.MachineryError('oracle model disagrees with csv / NumPy / Python (machinery failure, not a property violation): ' +
